@@ -267,7 +267,10 @@ def b_isinstance(ex, v, k, st):
         raise Unsupported('isinstance(%r)' % (v,))
     if isinstance(v, VOpt):
         nn = any(c is type(None) for c in classes)
-        return ex.val(VBool(z3.If(v.isnone, z3.BoolVal(nn), z3.BoolVal(static(v.val)))), st)
+        sv = static(v.val)
+        if nn == sv:
+            return ex.val(VBool(bool(sv)), st)
+        return ex.val(VBool(z3.If(v.isnone, z3.BoolVal(nn), z3.BoolVal(sv))), st)
     return ex.val(VBool(static(v)), st)
 
 
@@ -515,6 +518,10 @@ def func_node(ex, fn):
 def call_method_resolved(ex, owner, meth, fn, recv, args, kwargs, st, fr):
     """Method `meth` defined in class `owner`, receiver `recv`."""
     q = '%s.%s' % (owner.__name__, meth)
+    if q not in ex.reg.contracts and isinstance(recv, VRef):
+        alt = '%s.%s' % (st.heap[recv.ref].cls, meth)       # contract keyed by the sidecar class name
+        if alt in ex.reg.contracts:
+            q = alt
     raw = fn
     if isinstance(raw, staticmethod):
         return call_function(ex, raw.__func__, args, kwargs, st, fr, what=q, owner=owner)
@@ -565,6 +572,9 @@ def call_function(ex, fnobj, args, kwargs, st, fr, what=None, owner=None):
     c = ex.reg.contracts.get(q)
     if c is None and owner is None:
         c = ex.reg.contracts.get(fnobj.__name__)
+    rootc = getattr(getattr(fr, 'root', fr), 'contract', None)
+    if c is not None and rootc is not None and q in getattr(rootc, 'callee_overrides', {}):
+        c = rootc.callee_overrides[q]      # known-finding carve-out: narrowed callee behaviour
     mod, rel, node = func_node(ex, fnobj)
     if c is not None and not (fr.contract is c):
         return call_contract(ex, c, node, mod, fnobj, args, kwargs, st, fr)
@@ -635,7 +645,7 @@ def call_contract_named(ex, q, recv, args, kwargs, st, fr):
 
 def call_contract(ex, c, node, mod, fnobj, args, kwargs, st, fr):
     ex.used_contracts.add(c.qualname)
-    if node is not None:
+    if node is not None and not (node.args.vararg or node.args.kwarg):
         env = bind_params(ex, node, fnobj, args, kwargs, st, fr, mod)
     else:
         names = list(c.params.keys())
@@ -651,6 +661,9 @@ def call_contract(ex, c, node, mod, fnobj, args, kwargs, st, fr):
                             {'kind': 'call-pre', 'callee': c.qualname}))
             st.assume(z3.Not(v.isnone))
             env[pn] = v.val
+    for gname, gtype in c.ghost_init.items():
+        if gname not in st.ghost:
+            st.ghost[gname] = ex.fresh(gtype, gname, st)
     pre_st = st.fork()
     pre_env = SpecEnv(pre_st, dict(env))
     root = getattr(fr, 'root', fr)
@@ -664,6 +677,8 @@ def call_contract(ex, c, node, mod, fnobj, args, kwargs, st, fr):
     s1 = st.fork()
     s1.trace.append('ok:' + c.qualname)
     havoc(ex, c.modifies, env, s1, c)
+    for gname, gtype in c.ghost_init.items():
+        s1.ghost[gname] = ex.fresh(gtype, gname, s1)      # ghost state the callee advances
     res = ex.fresh(c.result, 'ret.' + c.qualname, s1) if c.result not in (None, 'none') else NONE
     senv = SpecEnv(s1, dict(env), pre_env, res)
     for nm, text in c.ensures + c.inv:
@@ -678,6 +693,8 @@ def call_contract(ex, c, node, mod, fnobj, args, kwargs, st, fr):
         s2 = st.fork()
         s2.trace.append('!' + exname + '@' + c.qualname)
         havoc(ex, c.raise_modifies if c.raise_modifies is not None else [], env, s2, c)
+        for gname, gtype in c.ghost_init.items():
+            s2.ghost[gname] = ex.fresh(gtype, gname, s2)
         e = VExc(ecls)
         s2.notes.append(('env' if c.assumed else 'call', c.qualname, 'raise', exname))
         senv = SpecEnv(s2, dict(env), pre_env, None, e)
